@@ -81,9 +81,11 @@ CHECKS["C01"] = dict(
          "and decides the property on the final forced stack and the captured stdout. Runs may carry a denotation "
          "twin (the same program with a list literal written as an equivalent lazy range): both must end alike.",
     note="Trusted: the transcription of the templates/semantics in spec/VyMachine.tla, VyValues.tla (closed core of 87 "
-         "elements on integers, plain-ASCII strings and lists; anything else = skip:undefined, counted). Lazily mapped "
-         "lambda bodies must be pure for the machine (else only the twin rule applies). Bounds: <= 3/4 symbols "
-         "exhaustive over two alphabets, scenario families, depth <= 4 random.",
+         "elements on integers, plain-ASCII strings and lists; anything else = skip:undefined, counted, reasons listed in "
+         "the evidence). Impure lazily mapped / filtered / scanned lambda bodies are heap cells of the machine, produced "
+         "when printed or turned into text (DeferredMap); other uses of such values are outside the model. Bounds: "
+         "<= 3/4 symbols exhaustive over two alphabets, <= 5/6 over the lazy-list alphabet, scenario families A-I, "
+         "depth <= 4 random.",
     ref="DESIGN.md section 6 C01",
     technique="TLA+ small-step semantics (VyMachine) model-checked by TLC + lock-step TLC validation of probe traces "
               "of execute_vyxal",
